@@ -37,6 +37,36 @@ pub fn run(tier: Tier, replay: Option<Value>) -> ! {
     let (mut progs, mut scripts) = (progs, scripts);
     let mut matrix_tags: std::collections::HashMap<usize, Vec<String>> = Default::default();
     if replay.is_none() {
+        // and-or chains of 3 and 4 operands: every assignment of {ok, ko, rc n} x every choice of && / ||,
+        // alone, as an if condition and as a while condition (left-associative, equal precedence, skipped
+        // operands do not end the list)
+        for n in 3..=4usize {
+            for leaves in 0..3usize.pow(n as u32) {
+                for ops in 0..(1u32 << (n - 1)) {
+                    let mut text = String::new();
+                    let mut l = leaves;
+                    for k in 0..n {
+                        if k > 0 {
+                            text.push_str(if ops >> (k - 1) & 1 == 1 { " && " } else { " || " });
+                        }
+                        text.push_str(&match l % 3 {
+                            0 => format!("ok {}", k + 1),
+                            1 => format!("ko {}", k + 1),
+                            _ => format!("rc {} {}", k + 1, k + 4),
+                        });
+                        l /= 3;
+                    }
+                    if n == 4 && leaves % 2 == 1 {
+                        continue; // (4 operands: every other leaf assignment, to bound the count)
+                    }
+                    for (wn, body) in [("plain", format!("{text}\npr")), ("if-cond", format!("if {text}; then ok 8; else ok 9; fi\npr")), ("while-cond", format!("while {text}; do ok 8; break; done\npr"))] {
+                        scripts.push(format!("{}{body}\necho \"end=$?\"\n", g::PRELUDE));
+                        progs.push(None);
+                        matrix_tags.insert(scripts.len() - 1, vec!["andor-chain".to_string(), format!("operands:{n}"), format!("in:{wn}")]);
+                    }
+                }
+            }
+        }
         // control transfers in CONDITION positions: every place a command list is evaluated for its status
         // (if / elif / while / until conditions, both sides of && and ||, a negated list, a case word's
         // command substitution) holding each transfer command, inside 1 or 2 loops and a function
